@@ -42,6 +42,13 @@ function p.loaddata(frame)
   pcall(function() rawset(d, "leaked", "set") end)
   return "d:" .. before
 end
+function p.loadjson(frame)
+  local d = mw.loadJsonData("Module:J.json")
+  local before = tostring(d.leaked) .. "/" .. tostring(d.list and #d.list)
+  pcall(function() d.leaked = "set" end)
+  pcall(function() table.insert(d.list, "x") end)
+  return "j:" .. before
+end
 function p.strip(frame) return frame:extensionTag("nowiki", "x") .. frame:extensionTag("nowiki", "y") end
 function p.err(frame) error("boom") end
 function p.loop(frame) while true do end end
@@ -62,6 +69,7 @@ PAGES = {
     "luaRequired": ("expand", "{{#invoke:S|required}}{{#invoke:S|required}}", {}),
     "luaRetained": ("expand", "{{#invoke:S|retained}}{{#invoke:S|retained}}", {}),
     "luaLoadData": ("expand", "{{#invoke:S|loaddata}}{{#invoke:S|loaddata}}", {}),
+    "luaLoadJson": ("expand", "{{#invoke:S|loadjson}}{{#invoke:S|loadjson}}", {}),
     "luaStripMarker": ("expand", "{{#invoke:S|strip}}", {}),
     "luaError": ("expand", "a{{#invoke:S|err}}b{{#invoke:S|nofn}}c", {}),
     "luaTimeout": ("expand", "a{{#invoke:S|loop}}b", {"timeout": 1}),
@@ -82,6 +90,7 @@ def populate(path):
     luastub.install(ctx)
     luastub.add_module(ctx, "S", MODULE_S)
     luastub.add_module(ctx, "Data", MODULE_DATA)
+    ctx.add_page("Module:J.json", 828, body='{"n": 1, "list": ["noun"]}', model="json")
     ctx.add_page("Template:T1", 10, body="({{{1}}})")
     ctx.add_page("Template:A", 10, body="{{B}}")
     ctx.add_page("Template:B", 10, body="[{{A}}]")
